@@ -263,10 +263,12 @@ impl Prop for C08 {
     match t {
       "days" => {
         let ts = ensure(ylo - 1, yhi + 1);
+        let mut rev = Reverse::new(6);
         for y in ylo..=yhi {
           if sel(y, 10) {
             for i in c.year_start[y as usize] as usize..c.year_start[y as usize + 1] as usize {
               run_case(env, out, "day", &Case::ints(&[i as i64]), &ev);
+              rev.note("day", &Case::ints(&[i as i64]));
             }
           } else {
             for ti in (1..24).step_by(2) {
@@ -274,11 +276,13 @@ impl Prop for C08 {
               for dd in -1..=1i64 {
                 if let Some(ix) = c.index_of_jdn(e.day + dd) {
                   run_case(env, out, "day", &Case::ints(&[ix as i64]), &ev);
+                  rev.note("day", &Case::ints(&[ix as i64]));
                 }
               }
             }
           }
         }
+        rev.run(env, out, &ev);
         out.set_exhaustive("day", env.tier == Tier::Thorough);
       }
       "times" => {
@@ -304,11 +308,14 @@ impl Prop for C08 {
         out.set_exhaustive("time", false);
       }
       "months" => {
+        let mut rev = Reverse::new(2);
         for y in ylo..=yhi {
           if sel(y, 5) {
             run_case(env, out, "months", &Case::ints(&[y]), &ev);
+            rev.note("months", &Case::ints(&[y]));
           }
         }
+        rev.run(env, out, &ev);
         out.set_exhaustive("months", env.tier == Tier::Thorough);
       }
       _ => panic!("unknown task {}", t),
